@@ -22,6 +22,11 @@ import (
 
 const batchSize = 100
 
+// startMark is printed first by every generated script: a process that did not print it did
+// not run the script at all (binary or scratch file removed under us, fork failure, ...) and
+// says nothing about any case.
+const startMark = "@@c15-start"
+
 type outcome struct {
 	got    string // canonical "result\treceiver", or a description of what happened instead
 	ok     bool   // a line for the case was produced and parsed
@@ -31,7 +36,7 @@ type outcome struct {
 
 func script(cases []*Case, ids []int) string {
 	var b strings.Builder
-	b.WriteString("<?php\n")
+	b.WriteString("<?php\necho \"" + startMark + "\\n\";\n")
 	for _, id := range ids {
 		b.WriteString(cases[id].PHP(id))
 	}
@@ -82,6 +87,9 @@ func runScript(e *lib.Env, src string, timeout time.Duration) (lib.ProcResult, b
 		if r.Err == nil && r.Exit != -2 {
 			return r, true
 		}
+		if _, err := os.Stat(e.Origami()); err != nil {
+			return r, false // the binary itself is gone: the retry rounds in main wait for it
+		}
 		time.Sleep(time.Duration(200*(attempt+1)) * time.Millisecond)
 	}
 	return r, false
@@ -89,15 +97,22 @@ func runScript(e *lib.Env, src string, timeout time.Duration) (lib.ProcResult, b
 
 // runBatch executes the cases `ids` in one process; when the process dies in the middle the
 // case that was running is marked and the rest is resumed in a new process.
-func runBatch(e *lib.Env, cases []*Case, ids []int, res []outcome) {
+// It returns "" or a note saying why some of the cases could not be executed (they are then
+// marked undone; the caller retries them and only then records the note as inconclusive).
+func runBatch(e *lib.Env, cases []*Case, ids []int, res []outcome) string {
 	for len(ids) > 0 {
 		r, started := runScript(e, script(cases, ids), 120*time.Second)
+		if started && !r.TimedOut && !strings.Contains(r.Stdout, startMark) {
+			if crash, _ := lib.GoCrash(r); !crash {
+				started = false
+				r.Err = fmt.Errorf("the script did not start: exit=%d %s", r.Exit, firstN(strings.TrimSpace(r.Stderr+" "+r.Stdout), 200))
+			}
+		}
 		if !started {
 			for _, id := range ids {
 				res[id] = outcome{undone: true}
 			}
-			e.Inconclusive(fmt.Sprintf("could not start the interpreter for a batch of %d cases: %v", len(ids), r.Err))
-			return
+			return fmt.Sprintf("could not run the interpreter for a batch of %d cases: %v", len(ids), r.Err)
 		}
 		lines := parseLines(r.Stdout)
 		firstMissing := -1
@@ -109,7 +124,7 @@ func runBatch(e *lib.Env, cases []*Case, ids []int, res []outcome) {
 			}
 		}
 		if firstMissing < 0 {
-			return
+			return ""
 		}
 		if r.TimedOut {
 			for _, id := range ids[firstMissing:] {
@@ -117,8 +132,7 @@ func runBatch(e *lib.Env, cases []*Case, ids []int, res []outcome) {
 					res[id] = outcome{undone: true}
 				}
 			}
-			e.Inconclusive(fmt.Sprintf("watchdog fired in a batch at case %q", cases[ids[firstMissing]].Desc()))
-			return
+			return fmt.Sprintf("watchdog fired in a batch at case %q", cases[ids[firstMissing]].Desc())
 		}
 		id := ids[firstMissing]
 		what := fmt.Sprintf("exit=%d", r.Exit)
@@ -133,6 +147,14 @@ func runBatch(e *lib.Env, cases []*Case, ids []int, res []outcome) {
 		res[id] = outcome{died: what}
 		ids = ids[firstMissing+1:]
 	}
+	return ""
+}
+
+func firstN(s string, n int) string {
+	if len(s) > n {
+		return s[:n]
+	}
+	return s
 }
 
 func lastLine(s string) string {
@@ -180,6 +202,68 @@ func main() {
 		}
 		runBatch(e, cases, ids, res)
 	})
+	// Cases that could not be executed (interpreter not startable, scratch or binary removed
+	// under us, watchdog on an overloaded machine) are retried a few rounds with little
+	// parallelism; what is still not executed after that is inconclusive.
+	retried := 0
+	var notes []string
+	for round := 0; round < 3; round++ {
+		var pending []int
+		for id := range cases {
+			if res[id].undone {
+				pending = append(pending, id)
+			}
+		}
+		if len(pending) == 0 {
+			break
+		}
+		if round == 0 {
+			retried = len(pending)
+		}
+		time.Sleep(time.Duration(2*(round+1)) * time.Second)
+		for wait := 0; wait < 20; wait++ { // a concurrent rebuild replaces the binary: give it a moment
+			if _, err := os.Stat(e.Origami()); err == nil {
+				break
+			}
+			time.Sleep(time.Second)
+		}
+		if _, err := os.Stat(e.Origami()); err != nil {
+			notes = []string{fmt.Sprintf("the interpreter binary %s disappeared during the run", e.Origami())}
+			break
+		}
+		np := (len(pending) + batchSize - 1) / batchSize
+		var nmu sync.Mutex
+		notes = nil
+		lib.ParallelMap(np, 4, func(b int) {
+			lo, hi := b*batchSize, (b+1)*batchSize
+			if hi > len(pending) {
+				hi = len(pending)
+			}
+			ids := append([]int{}, pending[lo:hi]...)
+			for _, id := range ids {
+				res[id] = outcome{}
+			}
+			if note := runBatch(e, cases, ids, res); note != "" {
+				nmu.Lock()
+				notes = append(notes, note)
+				nmu.Unlock()
+			}
+		})
+	}
+	notExecuted := 0
+	for id := range cases {
+		if res[id].undone {
+			notExecuted++
+		}
+	}
+	if notExecuted > 0 {
+		for _, n := range notes {
+			e.Inconclusive(n)
+		}
+		if len(notes) == 0 {
+			e.Inconclusive(fmt.Sprintf("%d cases could not be executed", notExecuted))
+		}
+	}
 
 	// verdicts; a disagreement is re-run alone so that the replay file is self-contained
 	var distinct lib.DistinctCounter
@@ -228,6 +312,10 @@ func main() {
 			e.Inconclusive("watchdog fired re-running " + c.Desc())
 			return
 		}
+		if crash, _ := lib.GoCrash(alone); !crash && !strings.Contains(alone.Stdout, startMark) {
+			e.Inconclusive(fmt.Sprintf("re-run of %s did not start: exit=%d %s", c.Desc(), alone.Exit, firstN(strings.TrimSpace(alone.Stderr), 200)))
+			return
+		}
 		got := ""
 		if rest, ok := parseLines(alone.Stdout)[0]; ok {
 			got = canonLine(rest, len(c.Steps) > 0)
@@ -257,7 +345,7 @@ func main() {
 			// must reproduce: a batch process killed from outside (OOM, signal) is not an outcome
 			again := make([]outcome, len(cases))
 			mu.Unlock()
-			runBatch(e, cases, ids, again)
+			_ = runBatch(e, cases, ids, again)
 			mu.Lock()
 			if a := again[id]; a.undone || (a.ok && a.got == c.Want()) {
 				e.Inconclusive("disagreement inside a batch did not reproduce: " + c.Desc() + " observed " + got)
@@ -306,6 +394,14 @@ func main() {
 		if i >= 0 && i < len(cases) {
 			samples = append(samples, map[string]string{"case": cases[i].Desc(), "documented": strings.ReplaceAll(cases[i].Want(), "\t", " receiver="), "key": strings.ReplaceAll(cases[i].Key, " ", "/") + "/"})
 		}
+	}
+	e.Extra("cases_retried_after_infrastructure_failure", retried)
+	e.Extra("cases_not_executed", notExecuted)
+	if notExecuted > 0 && e.NViolations() == 0 {
+		// An incomplete run must not read as "held": without samples lib.Finish reports the run
+		// as INCONCLUSIVE (exit 2). The counts above stay as measured.
+		fmt.Printf("INCONCLUSIVE property=C15: %d of %d cases could not be executed after 3 retry rounds (see inconclusive_notes in the evidence)\n", notExecuted, len(cases))
+		samples = nil
 	}
 	e.Finish(lib.Coverage{
 		Evaluations:        evaluated,
